@@ -17,7 +17,9 @@ from . import core, docs, doccheck, tlc
 from .surface import print_doc
 
 ROUTES = ['ctor_str', 'ctor_path', 'ctor_file', 'static_parse', 'instance_parse',
-          'parse_file_str', 'parse_file_path', 'parse_file_file']
+          'parse_file_str', 'parse_file_path', 'parse_file_file',
+          # an open TEXT file is text whatever its encoding: a handle opened on a UTF-16 file
+          'ctor_file_utf16', 'parse_file_file_utf16']
 BAD = ['bytes', 'int', 'list', 'StringIO', 'float', 'tuple', 'int0', 'bytes_empty', 'list_empty', 'tuple_empty', 'float0', 'false', 'dict_empty',
        'pathlike', 'bytearray', 'bytes_path', 'purepath']
 
@@ -42,7 +44,7 @@ def _call(route: str, text: str, bom: bool, opts: Dict[str, bool], tmpdir: str):
         def render_db(cls, db):
             return 'custom dbml'
     kw: Dict[str, Any] = {}
-    if route not in ('parse_file_str', 'parse_file_path', 'parse_file_file'):
+    if route not in ('parse_file_str', 'parse_file_path', 'parse_file_file', 'parse_file_file_utf16'):
         if opts['allow']:
             kw['allow_properties'] = True
         if opts['custom']:
@@ -59,6 +61,12 @@ def _call(route: str, text: str, bom: bool, opts: Dict[str, bool], tmpdir: str):
     elif route == 'ctor_file':
         with open(fn, encoding='utf8') as f:
             db = PyDBML(f, **kw)
+    elif route in ('ctor_file_utf16', 'parse_file_file_utf16'):
+        fn16 = os.path.join(tmpdir, 'doc16.dbml')
+        with open(fn16, 'w', encoding='utf-16', newline='') as f:
+            f.write(src)
+        with open(fn16, encoding='utf-16', newline='') as f:
+            db = PyDBML(f, **kw) if route == 'ctor_file_utf16' else PyDBML.parse_file(f)
     elif route == 'static_parse':
         db = PyDBML.parse(src, **kw)
     elif route == 'instance_parse':
